@@ -176,6 +176,20 @@ def j1_table(led, rid, ctx):
                       % ("false" if r == 0 else show(p.ret)[:60] if p.ret is not None else "nothing",
                          extra or "the recognised tests only"))
     led.floor(rid, "feasible rows of is_nogood_propagating", n, 2)
+    # the trail entry that is inspected is the one at the trail position of !predicates[0]
+    R = resolver(f)
+    gte = f.calls_named("get_trail_entry")
+    ok = False
+    for c in gte:
+        idx = R.operand(c.args[1]) if len(c.args) > 1 else None
+        if idx is not None and any(x.name == "get_trail_position" for x in idx.calls()) and \
+                any(x.name == "not" for x in idx.calls()):
+            ok = True
+    led.check(ok, rid, "is_nogood_propagating:reads-the-entry-of-the-propagated-predicate", f.span,
+              "get_trail_entry(get_trail_position(&!predicates[0]))",
+              "is_nogood_propagating does not look at the trail entry at the trail position of the negated "
+              "first predicate (a decision level or another index is used as a position): the answer is "
+              "about an unrelated entry, propagating nogoods are deleted")
 
 
 def j2(led, rid, ctx):
@@ -397,3 +411,6 @@ def run(ctx, led):
     run_rule(led, "J8", "semantic minimiser: every folding step maps the values a record stands for to exactly those satisfying the folded predicate (decided on all records of a 5-value window)", minimiser.steps_exact, ctx)
     run_rule(led, "J9", "semantic minimiser: the emitted predicates describe the record exactly relative to the root domain; holes leave the bounds before redundant holes are dropped", minimiser.emission_exact, ctx)
     run_rule(led, "J10", "a permanent nogood is stored in its preprocessed form", j10, ctx)
+    from . import C02 as _C02
+    run_rule(led, "J11", "equality halves merged when minimisation is off (shared with C02-U22)", _C02.u22, ctx)
+    run_rule(led, "J12", "conflict resolution returns in the Solving state also when nothing was learned (shared with C02-U23)", _C02.u23, ctx)
